@@ -167,6 +167,9 @@ Proof.
     + lia.
     + intros id [].
     + constructor.
+  - (* EForce *)
+    cbn [fst snd]. apply ans_ok_same; auto. apply flat_map_nil. intros x H.
+    apply force_outs_kind in H. destruct H as [[y ->]|[y ->]]; reflexivity.
 Qed.
 
 Lemma step_ans s dt e : pend_inv s -> nowrap1 s e -> ans_ok s (fst (step s dt e)) (snd (step s dt e)).
@@ -270,6 +273,7 @@ Proof.
   - left; exact PF.
   - left. dmatch; cbn [fst]; st_simpl; exact PF.
   - left. unfold on_open_full. dmatch; cbn [fst]; st_simpl; rewrite ?activity_pend; st_simpl; exact PF.
+  - left; exact PF.
 Qed.
 
 Lemma step_pend_ans s dt e :
@@ -345,6 +349,7 @@ Proof.
                        else with_next s0 ((s_next s0 + 1) mod ID_MOD)) = s_pend s0)
     by (destruct (s_ka s0); st_simpl; rewrite ?activity_pend; reflexivity).
   rewrite E2. apply pfind_app_new. intros C. apply Q2 in C. lia.
+  cbn [snd] in HC. apply force_outs_kind in HC. destruct HC as [[y HC]|[y HC]]; discriminate.
 Qed.
 
 Lemma pend_inv_final tr : forall s, pend_inv s -> nowrap s tr -> pend_inv (final s tr).
